@@ -513,7 +513,28 @@ impl LWorld {
     /// closes after a DISCONNECT, timers fire) an unsuperseded stop leads to exactly one Stopped, and a
     /// later start works again.
     pub fn fair_closure(mut self, steps: usize) -> Vec<Violation> {
-        if self.dead || self.loop_dead || self.closed { return self.violations; }
+        if self.dead || self.loop_dead { return self.violations; }
+        if self.closed {
+            // close is terminal: with a quiet transport (only due timers and pending writes make progress) the loop must end
+            let mut trace = Vec::new();
+            for _ in 0..steps {
+                if self.dead || self.loop_dead { break; }
+                let ev = match self.loop_state {
+                    CONNECTED => {
+                        let due = self.next_service_ns().map(|t| t <= self.now_ns).unwrap_or(false);
+                        if due { LEv::Service } else if self.written < self.outbuf.len() { LEv::WriteAll } else { break }
+                    }
+                    _ => break,
+                };
+                trace.push(ev.to_text());
+                self.apply(&ev);
+            }
+            if !self.dead && !self.loop_dead {
+                let (ls, view) = (self.loop_state, self.client.view());
+                self.violate("C12", format!("close-never-terminates loop_state={}", ls), format!("after close() the event loop stays alive while the transport is quiet (continuation {:?}); client view {:?}", trace, view));
+            }
+            return self.violations;
+        }
         if !self.stop_pending { return self.violations; }
         let stopped_before = self.stopped_events;
         let mut trace = Vec::new();
